@@ -57,6 +57,9 @@ def directed_histories():
         H("select order changed", [R({"select": ["opt", "lib"]}), R({"select": ["lib", "opt"]})]),
         H("disable order changed", [R({"disable": ["opt", "lib"]}), R({"disable": ["lib", "opt"]})]),
         H("select repeated", [R({"select": ["opt"]}), R({"select": ["opt", "opt"]})]),
+        H("optional select, then the same name as a hard select (it does not exist: every build goes)", [R({"select": ["?nosuchmodule"]}), R({"select": ["nosuchmodule"]})]),
+        H("hard select, then the same name as an optional one", [R({"select": ["nosuchmodule"]}), R({"select": ["?nosuchmodule"]})]),
+        H("optional and hard select of a module one builder disables", [R({"select": ["?opt"], "disable": []}), R({"select": ["opt"]}), R({"select": ["?opt"]})]),
         H("disable changed", [R({}), R({"disable": ["lib"]}), R({})]),
         H("another laze binary", [R({}), R({}, bin=2), R({}, bin=2)]),
         H("another laze binary, narrower arguments", [R({}), R(b0, bin=2)]),
